@@ -6,5 +6,6 @@ import PortusModel.Props.C19
 #print axioms Portus.C19.recv_returns_head
 #print axioms Portus.C19.fits_recv_whole
 #print axioms Portus.C19.dead_handle_is_err
+#print axioms Portus.C19.recv_never_panics
 #print axioms Portus.C19.sentOf_opsOf_filter
 #print axioms Portus.C19.model_accepted
